@@ -17,6 +17,12 @@ type AdvOptions struct {
 	PTimeout     float64 // weight of firing a (possibly stale) timeout while other work is pending
 	PByz         float64 // weight of a Byzantine action
 	Slow         int     // index of a node whose deliveries are mostly held back (-1: none)
+	// "lock stress": round-0 proposals are mostly withheld (round 0 ends with a nil polka), precommits
+	// are mostly lost at first (nodes lock without committing and move on), and Byzantine validators
+	// prefer fresh votes for EARLIER rounds - the situations the lock / unlock rules exist for
+	WithholdR0    float64
+	PrecommitLoss float64
+	ByzOldRounds  bool
 }
 
 type pending struct {
@@ -71,8 +77,61 @@ func (c *Cluster) RunAdversarial(rng *rand.Rand, o AdvOptions) {
 		}
 		return false
 	}
+	type hr struct {
+		h uint64
+		r int
+	}
+	type sentKey struct {
+		node int
+		h    uint64
+		r    int
+	}
+	type byzProp struct {
+		prop *types.Proposal
+		ps   *types.PartSet
+	}
+	byzProps := map[hr]byzProp{}
+	byzSent := map[sentKey]bool{}
 	for step := 0; step < o.Steps && !done() && !tooFar(); step++ {
 		enqueue()
+		if o.ByzOldRounds && len(byz) > 0 {
+			// lock stress: whenever a correct node enters a round in which it expects a Byzantine
+			// validator to propose, it is handed that validator's fresh block for the round (the
+			// same block for everybody) before it can prevote, so every lock is challenged
+			for _, i := range correct {
+				n := c.Nodes[i]
+				if n.Failure != nil {
+					continue
+				}
+				nrs := n.CS.GetRoundState()
+				if nrs.Step > cstypes.RoundStepPropose || nrs.Validators.GetProposer() == nil {
+					continue
+				}
+				b := c.IndexOf(nrs.Validators.GetProposer().Address)
+				if b < 0 || !c.Nodes[b].Byz || byzSent[sentKey{i, nrs.Height, nrs.Round}] {
+					continue
+				}
+				key := hr{nrs.Height, nrs.Round}
+				bp, ok := byzProps[key]
+				if !ok {
+					var lc *types.Commit
+					if nrs.Height > 1 {
+						if lc = n.App.LoadSeenCommit(nrs.Height - 1); lc == nil {
+							continue
+						}
+					}
+					blk, ps := c.MakeBlock(n.CS.VerifStatus(), lc, nrs.Height)
+					byzBlocks = append(byzBlocks, byzBlock{blk, ps, nrs.Height})
+					bp = byzProp{c.MakeProposal(b, nrs.Height, nrs.Round, ps, -1, types.BlockID{}), ps}
+					byzProps[key] = bp
+				}
+				byzSent[sentKey{i, nrs.Height, nrs.Round}] = true
+				c.Deliver(i, &cs.ProposalMessage{Proposal: bp.prop}, b)
+				for k := 0; k < bp.ps.Total(); k++ {
+					c.Deliver(i, &cs.BlockPartMessage{Height: nrs.Height, Round: nrs.Round, Part: bp.ps.GetPart(k)}, b)
+				}
+			}
+		}
 		// candidate classes
 		var internals []int
 		for _, i := range correct {
@@ -129,7 +188,22 @@ func (c *Cluster) RunAdversarial(rng *rand.Rand, o AdvOptions) {
 				break // held back for now
 			}
 			queue = append(queue[:k:k], queue[k+1:]...)
-			if rng.Float64() < o.PLoss {
+			lossP := o.PLoss
+			switch m := c.Wire[p.w].Msg.(type) {
+			case *cs.ProposalMessage:
+				if m.Proposal.Round == 0 && o.WithholdR0 > 0 {
+					lossP = o.WithholdR0
+				}
+			case *cs.BlockPartMessage:
+				if m.Round == 0 && o.WithholdR0 > 0 {
+					lossP = o.WithholdR0
+				}
+			case *cs.VoteMessage:
+				if m.Vote.Type == types.VoteTypePrecommit && o.PrecommitLoss > 0 {
+					lossP = o.PrecommitLoss
+				}
+			}
+			if rng.Float64() < lossP {
 				// lost now; gossip would retransmit: keep it retrievable through the duplicate path
 				delivered = append(delivered, p)
 				break
@@ -140,7 +214,7 @@ func (c *Cluster) RunAdversarial(rng *rand.Rand, o AdvOptions) {
 			t := timeouts[rng.Intn(len(timeouts))]
 			c.Fire(t[0], t[1])
 		default:
-			c.byzAct(rng, byz[rng.Intn(len(byz))], &byzBlocks)
+			c.byzAct(rng, byz[rng.Intn(len(byz))], &byzBlocks, o.ByzOldRounds)
 		}
 	}
 }
@@ -148,7 +222,7 @@ func (c *Cluster) RunAdversarial(rng *rand.Rand, o AdvOptions) {
 func (c *Cluster) internalLen(i int) int { return c.Nodes[i].CS.VerifInternalLen() }
 
 // byzAct performs one Byzantine action of validator b.
-func (c *Cluster) byzAct(rng *rand.Rand, b int, blocks *[]byzBlock) {
+func (c *Cluster) byzAct(rng *rand.Rand, b int, blocks *[]byzBlock, oldRounds bool) {
 	correct := c.Correct()
 	tgt := c.Nodes[correct[rng.Intn(len(correct))]]
 	rs := tgt.CS.GetRoundState()
@@ -189,7 +263,7 @@ func (c *Cluster) byzAct(rng *rand.Rand, b int, blocks *[]byzBlock) {
 			typ = types.VoteTypePrecommit
 		}
 		r := rs.Round + rng.Intn(4) - 1
-		if rng.Intn(3) == 0 && rs.Round > 0 {
+		if (rng.Intn(3) == 0 || (oldRounds && rng.Intn(3) > 0)) && rs.Round > 0 {
 			r = rng.Intn(rs.Round + 1) // a late vote for any earlier round (old polkas must stay harmless)
 		}
 		if r < 0 {
@@ -205,37 +279,7 @@ func (c *Cluster) byzAct(rng *rand.Rand, b int, blocks *[]byzBlock) {
 			}
 		}
 	case 2: // a proposal with an own block, when some node expects this validator to propose
-		for _, i := range correct {
-			n := c.Nodes[i]
-			nrs := n.CS.GetRoundState()
-			if nrs.Height != h || nrs.Validators.GetProposer() == nil || c.IndexOf(nrs.Validators.GetProposer().Address) != b || nrs.Step > cstypes.RoundStepPropose+2 {
-				continue
-			}
-			var lc *types.Commit
-			if h > 1 {
-				lc = n.App.LoadSeenCommit(h - 1)
-				if lc == nil {
-					return
-				}
-			}
-			blk, ps := c.MakeBlock(n.CS.VerifStatus(), lc, h)
-			*blocks = append(*blocks, byzBlock{blk, ps, h})
-			polRound := -1
-			if nrs.Round > 0 && rng.Intn(2) == 0 {
-				polRound = rng.Intn(nrs.Round)
-			}
-			prop := c.MakeProposal(b, h, nrs.Round, ps, polRound, types.BlockID{})
-			for _, j := range subset() {
-				if c.Nodes[j].Failure != nil {
-					continue
-				}
-				c.Deliver(j, &cs.ProposalMessage{Proposal: prop}, b)
-				for k := 0; k < ps.Total(); k++ {
-					c.Deliver(j, &cs.BlockPartMessage{Height: h, Round: nrs.Round, Part: ps.GetPart(k)}, b)
-				}
-			}
-			return
-		}
+		c.byzPropose(rng, b, blocks, subset)
 	case 3: // re-offer an earlier Byzantine block's parts (blocks may be fetched after a polka)
 		if len(*blocks) == 0 {
 			return
@@ -249,4 +293,45 @@ func (c *Cluster) byzAct(rng *rand.Rand, b int, blocks *[]byzBlock) {
 			}
 		}
 	}
+}
+
+// byzPropose: Byzantine validator b proposes a fresh block of its own to the nodes chosen by
+// `to`, if some correct node currently expects b to propose. Returns the (height, round) proposed for.
+func (c *Cluster) byzPropose(rng *rand.Rand, b int, blocks *[]byzBlock, to func() []int) (uint64, int, bool) {
+	for _, i := range c.Correct() {
+		n := c.Nodes[i]
+		nrs := n.CS.GetRoundState()
+		h := nrs.Height
+		if nrs.Validators.GetProposer() == nil || c.IndexOf(nrs.Validators.GetProposer().Address) != b || nrs.Step > cstypes.RoundStepPropose+2 {
+			continue
+		}
+		if _, v := n.CS.VerifStatus().Validators.GetByAddress(c.PVs[b].GetAddress()); v == nil {
+			continue
+		}
+		var lc *types.Commit
+		if h > 1 {
+			lc = n.App.LoadSeenCommit(h - 1)
+			if lc == nil {
+				return 0, 0, false
+			}
+		}
+		blk, ps := c.MakeBlock(n.CS.VerifStatus(), lc, h)
+		*blocks = append(*blocks, byzBlock{blk, ps, h})
+		polRound := -1
+		if nrs.Round > 0 && rng.Intn(2) == 0 {
+			polRound = rng.Intn(nrs.Round)
+		}
+		prop := c.MakeProposal(b, h, nrs.Round, ps, polRound, types.BlockID{})
+		for _, j := range to() {
+			if c.Nodes[j].Failure != nil {
+				continue
+			}
+			c.Deliver(j, &cs.ProposalMessage{Proposal: prop}, b)
+			for k := 0; k < ps.Total(); k++ {
+				c.Deliver(j, &cs.BlockPartMessage{Height: h, Round: nrs.Round, Part: ps.GetPart(k)}, b)
+			}
+		}
+		return h, nrs.Round, true
+	}
+	return 0, 0, false
 }
